@@ -2,6 +2,9 @@
 // A case is either a list of pieces (table entries, delimiters, near misses, fillers) or a raw byte blob.
 #include "../../engine/common/exec.h"
 #include "oracle.h"
+#include <algorithm>
+#include <cstring>
+#include <vector>
 
 namespace vf {
 const char *const exec_props = "C19";
@@ -16,9 +19,21 @@ static std::string piece(const Op &o) {
     static const char *unknown[] = {"xx", "zz", "qq", "XX", "e", "eng", "EN", "gb", "Gb"};
     switch (o.k) {
     case LANG_CODE: return LocaleInfo::languageInfo[a % (unsigned)LocaleInfo::languagesCount].code;
-    case LANG_NAME: return LocaleInfo::languageInfo[a % (unsigned)LocaleInfo::languagesCount].value;
+    case LANG_NAME:
+        if ((b & 7) == 7) {   // one of the eight longest language names: whole strings of 63 bytes and more that still resolve
+            static std::vector<int> longest = [] { std::vector<int> v; for (int i = 0; i < LocaleInfo::languagesCount; ++i) v.push_back(i);
+                std::stable_sort(v.begin(), v.end(), [](int x, int y) { return strlen(LocaleInfo::languageInfo[x].value) > strlen(LocaleInfo::languageInfo[y].value); }); v.resize(8); return v; }();
+            return LocaleInfo::languageInfo[longest[(a / 7) % 8]].value;
+        }
+        return LocaleInfo::languageInfo[a % (unsigned)LocaleInfo::languagesCount].value;
     case COUNTRY_CODE: return LocaleInfo::countryInfo[a % (unsigned)LocaleInfo::countiesCount].code;
-    case COUNTRY_NAME: return LocaleInfo::countryInfo[a % (unsigned)LocaleInfo::countiesCount].value;
+    case COUNTRY_NAME:
+        if ((b & 7) == 7) {
+            static std::vector<int> longest = [] { std::vector<int> v; for (int i = 0; i < LocaleInfo::countiesCount; ++i) v.push_back(i);
+                std::stable_sort(v.begin(), v.end(), [](int x, int y) { return strlen(LocaleInfo::countryInfo[x].value) > strlen(LocaleInfo::countryInfo[y].value); }); v.resize(4); return v; }();
+            return LocaleInfo::countryInfo[longest[(a / 7) % 4]].value;
+        }
+        return LocaleInfo::countryInfo[a % (unsigned)LocaleInfo::countiesCount].value;
     case UNDERSCORE: return "_";
     case DOT: return ".";
     case CHARSET: return charsets[a % 5];
@@ -53,5 +68,14 @@ void exec_case(const Case &c) {
     if (input.find('.') != std::string::npos && input.find('_') != std::string::npos && input.find('.') < input.find('_')) label("dot_before_underscore");
     if (v.nontrivial) nontrivial();
     if (!v.ok) violation(v.cls.c_str(), "%s", v.msg.c_str());
+    if (input.size() >= 63 && !v.fallback) label("resolvable_string_of_63_bytes_or_more");
+    // get() is a function of its argument: whatever was asked before, each answer is the one the tables give. Near neighbours of
+    // the string (one byte more, one byte less, a charset appended) are asked in the same process, then the string itself again.
+    std::vector<std::string> later{input + "x", input.empty() ? std::string("_") : input.substr(0, input.size() - 1), input + ".UTF-8", input};
+    for (size_t i = 0; i < later.size(); ++i) {
+        c19::Verdict w = c19::check(later[i]);
+        if (!w.ok) violation(w.cls.c_str(), "call #%zu of this process, get() of %s: %s", i + 2, i + 1 == later.size() ? "the first string again" : i == 0 ? "the first string + \"x\"" : i == 1 ? "the first string minus its last byte" : "the first string + \".UTF-8\"", w.msg.c_str());
+    }
+    label("call_history_of_5");
 }
 } // namespace vf
